@@ -216,20 +216,12 @@ theorem c08_grow_missing (f : List Nat → β) (info : Info) (bsl : List (List (
       rw [this]; rfl
 
 /-- **re-sowing keeps results**: sowing again never touches the result files -/
-theorem c08_resow_keeps_results (P : Perms) (s s' : St β) (d : Dir β) (sw : Sweep) (sh : Option Nat) (bs nb : Option Nat)
-    (hd : s.dir = some d) (h : opSow P s sw sh bs nb = .ok s') :
+theorem c08_resow_keeps_results (P : Perms) (s s' : St β) (d : Dir β) (sw : Sweep) (combos : Bool) (sh : Option Nat)
+    (bs nb : Option Nat) (hd : s.dir = some d) (h : opSow P s sw combos sh bs nb = .ok s') :
     ∃ d', s'.dir = some d' ∧ d'.results = d.results := by
   unfold opSow at h
-  cases sh with
-  | none =>
-    simp only [Option.isSome_none, Bool.false_eq_true, if_false] at h
-    split at h
-    · cases h
-    · cases h
-      exact ⟨_, rfl, by simp [hd]⟩
-  | some v =>
-    simp only [Option.isSome_some, if_true] at h
-    split at h
+  cases combos <;> simp only [Bool.false_eq_true, if_false, if_true] at h <;>
+  · split at h
     · cases h
     · cases h
       exact ⟨_, rfl, by simp [hd]⟩
